@@ -91,6 +91,12 @@ RULE = ("instances = verdict call sites + verifier x proof field + proof-vs-clai
         "vectors; an instance holds iff the flow / dominance fact is established on the type-checked program")
 
 
+ABSORBED = {
+    "hyrax": ["param:key", "commitment.row_coms", "param:point", "proof.com_eval", "proof.com_d", "proof.com_b"],
+    "linear_codes": ["commitment.root", "param:point", "proof.v", "proof.well_formedness"],
+}
+
+
 def run(rep, ctx, tier):
     missing = []
     anchors = ctx.verifier_anchors(missing)
@@ -128,6 +134,8 @@ def run(rep, ctx, tier):
         nz = R4.run_zip(rep, ctx, a, "R4a")
         if nz == 0 and a.method in ("batch_check", "check_combinations"):
             nz = R4.run_positional(rep, ctx, a, "R4a")
+        if nz == 0 and a.method in ("batch_check", "check_combinations"):
+            nz = R4.run_lockstep(rep, ctx, a, "R4a")
         zips += nz
         padts = {e[0] for e in a.info["proof"]}
         rep.count("loop_zips_over_proof_vectors", R4.run_loopzip(rep, ctx, a, padts, "R4c"))
@@ -137,5 +145,37 @@ def run(rep, ctx, tier):
                 rep.add("R4b", "%s:encode-input" % a.key, False,
                         "no call of LinearEncode::encode on a proof vector found in the linear-code verifier "
                         "(anchor moved? fail closed)", a.body.span)
+    # RFSs: what the sponge-driven verifiers bind into their challenges. For the two schemes whose `check` absorbs into
+    # the sponge itself, the set of statement / proof components that reach an absorb is frozen here from the tree as
+    # confirmed by reading (the prover messages that precede the challenge, the commitment, the point, the key). R7
+    # compares prover and verifier with each other; an absorb dropped on *both* sides keeps them in step and is seen
+    # only against this reference: a message left out of the transcript can be chosen after the challenge.
+    from ..rules import schedule as R7
+    from . import c11 as C11
+    f = ctx.facts
+    for sk, want in ABSORBED.items():
+        info = T.SCHEMES[sk]
+        vb = C11.find_method(f, info["adt"], "check")
+        if vb is None or vb.id not in f.hir:
+            rep.add("RFS", "%s.check:absorbs" % sk, False, "check of %s not found (fail closed)" % sk, None)
+            continue
+        ve = R7.Extractor(ctx, info["adt"], vb, T.ROLES["check"], C11.proof_adts(info), C11.COMMITMENT_ADTS, C11.KEY_ADTS)
+        got = set()
+
+        def flat(items):
+            for it in items:
+                if it[0] == "loop":
+                    flat(it[1])
+                elif it[0] == "branch":
+                    for arm in it[2:]:
+                        flat(arm)
+                elif it[0] == "absorb":
+                    got.update(str(it[1]).split("|"))
+        flat(R7.normalise(ve.schedule(f.hir[vb.id], 0, (vb.id,))))
+        for w in want:
+            rep.add("RFS", "%s.check:absorbs:%s" % (sk, w), w in got,
+                    ("%s is absorbed into the verifier's transcript" % w) if w in got else
+                    ("%s no longer reaches any absorb of the verifier (absorbed today: %s): it is not bound by the challenges "
+                     "derived from the transcript" % (w, ", ".join(sorted(got)) or "nothing")), vb.span)
     if zips < 1:
         rep.add("R4a", "floor", False, "no proof-vs-claims zip found in any verifier (floor is 1; fail closed)", None)
